@@ -233,3 +233,88 @@ PACK_ROLE_OF_CLASS = {
 
 def packers(prog):
     return prog.cls("flow.record.packer.RecordPacker")
+
+
+def check_typedlist_pack(ctx, rule: str) -> None:
+    """typedlist does not override list's in-place mutators, so a list field can hold raw Python values (append, extend, +=, item
+    assignment); the packed form is well-defined only if `_pack` brings every element to the element type first. Decided on
+    typedlist._pack: every value put into the result is `X._pack()` with X of the element type - `self.__type__(f)` or a name for
+    which `isinstance(f, self.__type__)` holds there - or, for lists of records, the element itself under `self.__type__ == record`."""
+    from .. import logic
+    from ..cfg import CFG
+
+    prog = ctx.prog
+    tl = prog.cls("flow.record.fieldtypes.typedlist")
+    ctx.use(tl._module)
+    methods = prog.methods_of(tl)
+    mutators = ("append", "extend", "insert", "__setitem__", "__iadd__")
+    converting = [m for m in mutators if m in methods and methods[m]._parent is tl]
+    ctx.rule(rule, "typedlist._pack: every element that is written is the packed form of a value of the element type (raw values added in place are "
+                   "converted first); records inside record[] are handed over unpacked")
+    if len(converting) == len(mutators):
+        ctx.check(True, rule, "typedlist:mutators-convert", "", tl, "all in-place mutators are overridden")
+        return
+    pk = ctx.anchor_func("flow.record.fieldtypes.typedlist._pack")
+    cfg = CFG(pk)
+    # the values collected: result.append(E) / [E for ...] / list(self) ...
+    rets = [r for r in walk_no_nested(pk) if isinstance(r, ast.Return)]
+    collected = []  # (expr E, node where it is evaluated, source description)
+    for r in rets:
+        v = r.value
+        if isinstance(v, ast.Name):
+            for c in calls_in(pk):
+                if isinstance(c.func, ast.Attribute) and c.func.attr == "append" and norm(c.func.value) == v.id and len(c.args) == 1:
+                    collected.append((c.args[0], c))
+            for st in walk_no_nested(pk):
+                if isinstance(st, ast.Assign) and len(st.targets) == 1 and norm(st.targets[0]) == v.id and not (isinstance(st.value, ast.List) and not st.value.elts):
+                    collected.append((st.value, st))
+        else:
+            collected.append((v, r))
+    ctx.floor(rule, "values collected by typedlist._pack", len(collected), 1)
+
+    def element_typed(x, at_node, extra):
+        """Is expression x a value of the element type at that point?"""
+        if isinstance(x, ast.Call) and norm(x.func) == "self.__type__":
+            return True
+        prem = logic.facts_as_premises(cfg.facts_at(at_node.id)) + extra
+        if isinstance(x, ast.Name):
+            if logic.implies(prem, logic.parse(f"isinstance({x.id}, self.__type__)")):
+                return True
+            # x = self.__type__(f) on every reaching definition
+            defs = [cfg.nodes[d].ast for d in cfg.reaching_defs(x.id).get(at_node.id, set()) if cfg.nodes[d].ast is not None]
+            if defs and all(isinstance(d, ast.Assign) and isinstance(d.value, ast.Call) and norm(d.value.func) == "self.__type__" for d in defs):
+                return True
+        if isinstance(x, ast.IfExp):
+            return element_typed(x.body, at_node, extra + [(x.test, True)]) and element_typed(x.orelse, at_node, extra + [(x.test, False)])
+        return False
+
+    def judge(e, site, extra):
+        at_node = cfg.node_of(site)
+        if isinstance(e, (ast.ListComp, ast.GeneratorExp)):
+            cond = [(c, True) for g in e.generators for c in g.ifs]
+            return judge(e.elt, site, extra + cond)
+        if isinstance(e, ast.IfExp):
+            a = judge(e.body, site, extra + [(e.test, True)])
+            b = judge(e.orelse, site, extra + [(e.test, False)])
+            return a if a is not True else b
+        if isinstance(e, ast.Call) and isinstance(e.func, ast.Attribute) and e.func.attr == "_pack" and not e.args:
+            return True if element_typed(e.func.value, at_node, extra) else f"`{norm(e)}`: `{norm(e.func.value)}` need not be of the element type there"
+        if isinstance(e, ast.Name):
+            defs = [cfg.nodes[d].ast for d in cfg.reaching_defs(e.id).get(at_node.id, set()) if cfg.nodes[d].ast is not None]
+            if defs and all(isinstance(d, ast.Assign) and len(d.targets) == 1 and isinstance(d.targets[0], ast.Name) for d in defs) and not any(d is site for d in defs):
+                for d in defs:
+                    res = judge(d.value, d, [])
+                    if res is not True:
+                        return res
+                return True
+        # the element itself (or the list itself): only for lists of records
+        prem = logic.facts_as_premises(cfg.facts_at(at_node.id)) + extra
+        if logic.implies(prem, logic.parse("self.__type__ == record")):
+            return True
+        return f"`{norm(e)[:60]}` is written as it is although `self.__type__ == record` does not hold there"
+
+    for e, site in collected:
+        res = judge(e, site, [])
+        ctx.check(res is True, rule, f"typedlist._pack:{norm(e)[:40]}", (res if res is not True else "") + ": a value that was added to the list in place (append, +=, item assignment) is "
+                  "written in its raw form, which is not the wire form of the element type (and differs from the packed form of an equal, rebuilt record)", site,
+                  "X._pack() with X of the element type", key=f"{rule}:typedlist._pack:unconverted-element")
